@@ -34,6 +34,10 @@ def sim_kwargs(cfg):
     )
     if cfg.get("unit_time") is not None:
         kw["unit_time"] = cfg["unit_time"]
+    if cfg.get("error_tol") is not None:
+        kw["error_tol"] = cfg["error_tol"]
+    if cfg.get("_absence_obj") is not None:
+        kw["absence_time_list"] = cfg["_absence_obj"]  # the very list object the caller holds (e.g. project.absence_time_list)
     if "init_state" in cfg:
         kw["initialize_state_info"] = bool(cfg["init_state"])
     if "init_log" in cfg:
